@@ -399,6 +399,10 @@ func c16Run(c *mon.Case, p c16P) {
 				if nt.Height() < 1 || nt.Height() > nh.Height() {
 					c.Violation("tail-outside-chain/"+shape, fmt.Sprintf("Tail %d Head %d", nt.Height(), nh.Height()), nil)
 				}
+				// the Syncer's own head is never behind what it has stored
+				if sh != nil && sh.Height() < nh.Height() {
+					c.Violation("syncer-head-below-store-head/"+shape, fmt.Sprintf("Syncer.Head() %d, store head %d at quiescence", sh.Height(), nh.Height()), nil)
+				}
 				// no wedge: with an honest getter the store reaches the newest head the Syncer learned
 				if sh != nil && nh.Height() < sh.Height() {
 					c.Violation("wedged-below-network-head/"+shape, fmt.Sprintf("store head %d, Syncer.Head() %d at quiescence", nh.Height(), sh.Height()), nil)
